@@ -486,6 +486,13 @@ func triageHang(self string, o DriverOpts, hang *Msg) triageResult {
 	select {
 	case err := <-done:
 		if err == nil {
+			// The stages are fine, so the stall is in the run stage. With the instruction budget armed
+			// a script can dispatch at most 200 000 instructions (milliseconds): give the unit 60 s
+			// alone; if it still does not return, the VM (or a bundled native) is wedged inside one
+			// instruction, which no script exhausts resources to deserve.
+			if wedged := confirmWedge(self, o, hang); wedged != nil {
+				return *wedged
+			}
 			return triageResult{kind: "excepted", why: "slow_script_over_watchdog", msg: Msg{Unit: hang.Unit}, next: hang.Unit + 1}
 		}
 		if !oomRe.MatchString(outb.String()) {
@@ -635,6 +642,33 @@ func RunReplay(path string) int {
 	}
 	fmt.Println("goatsim: the recorded violation does not occur on this tree")
 	return 0
+}
+
+// confirmWedge re-runs the stalled unit alone with a 60 s watchdog.
+func confirmWedge(self string, o DriverOpts, hang *Msg) *triageResult {
+	work := filepath.Dir(hang.Replay)
+	cmd := exec.Command(self, "worker", "--prop", o.Prop, "--tier", o.Tier, "--seed", fmt.Sprint(o.Seed), "--work", work, "--replays", filepath.Join(o.VerifDir, "replays"),
+		"--shard", "0", "--of", "1", "--from", fmt.Sprint(hang.Unit), "--to", fmt.Sprint(hang.Unit+1))
+	cmd.Env = append(os.Environ(), "GOATSIM_HANG=60")
+	var outb bytes.Buffer
+	cmd.Stdout, cmd.Stderr = &outb, &outb
+	err := cmd.Run()
+	ee, ok := err.(*exec.ExitError)
+	if !ok || ee.ExitCode() != 3 {
+		return nil // it returned (or died another way) within the minute
+	}
+	if o.Prop != "C03" {
+		return &triageResult{kind: "infra", why: "a unit did not return within 60 s although its instruction budget was armed (property C03's subject): " + hang.Replay}
+	}
+	b, _ := os.ReadFile(hang.Replay)
+	why := "an entry point did not return within 60 s although the instruction budget (200 000) was armed and tokenize/parse/load/compile complete: the VM or a bundled native is stuck inside a single instruction"
+	rp := &Replay{Property: "C03", Engine: "hostsafe", Seed: o.Seed, Tier: o.Tier, Unit: hang.Unit, Sub: hang.Sub,
+		Violation: Violation{Property: "C03", Rule: "C03/returns", KeyKind: "wedged-in-one-instruction", Detail: why}, Plan: b}
+	path, werr := WriteReplay(filepath.Join(o.VerifDir, "replays"), rp)
+	if werr != nil {
+		return &triageResult{kind: "infra", why: werr.Error()}
+	}
+	return &triageResult{kind: "violation", msg: Msg{Type: "violation", Unit: hang.Unit, Sub: hang.Sub, Replay: path, Sig: rp.Violation.Sig(), Detail: "C03/returns: " + why}, next: hang.Unit + 1}
 }
 
 func firstLines(s string, n int) string {
